@@ -12,8 +12,8 @@ import errno
 ID = "C64"
 LEVEL = "exploration"
 TIERS = {
-    "quick": {"runs": 2500, "wall": 80, "chunk": 25, "shrink_s": 40, "run_cap_s": 60},
-    "thorough": {"runs": 400_000, "wall": 840, "chunk": 50, "shrink_s": 120, "run_cap_s": 60},
+    "quick": {"runs": 2500, "wall": 80, "chunk": 25, "shrink_s": 40, "run_cap_s": 120},
+    "thorough": {"runs": 400_000, "wall": 840, "chunk": 50, "shrink_s": 120, "run_cap_s": 120},
 }
 RULE = (
     "one run = a history of <=12 operations over <=3 simulated paths and <=4 live dataset handles (create in "
